@@ -3,8 +3,9 @@
    flatten_up_to <-> is_prefix <-> prefix_errors (three separately written implementations, one of
    them Python) is decided by the three-way correspondence/oracle run, see DESIGN §7 C07 — the
    theorems named *_partial below say what part of the full statement is proved. *)
-From OptreeModel Require Import Base Tree Flatten Unflatten Spec.
-From OptreeProofs Require Import SpecProofs OrderProofs PrefixOrder JoinOrder FlattenGood UpToProofs UpToPrefix.
+From OptreeModel Require Import Base Tree Flatten Unflatten Spec Accessor.
+From OptreeProofs Require Import SpecProofs OrderProofs PrefixOrder JoinOrder FlattenGood UpToProofs UpToPrefix UpToPartition UpToPaths UpToTop.
+From Coq Require Import Permutation.
 
 (* reflexive; comparing a treespec with itself never is a strict prefix *)
 Theorem C07_prefix_refl :
@@ -95,6 +96,55 @@ Theorem C07_flatten_up_to_iff_is_prefix_general :
      fst (st_prefix (stree_of s) (stree_of so)) = true).
 Proof. exact flatten_up_to_iff_is_prefix. Qed.
 Print Assumptions C07_flatten_up_to_iff_is_prefix_general.
+
+(* THE PARTITION. On success every returned subtree flattens, and the leaves of the returned subtrees
+   taken together are the leaves of the tree, each exactly once: a permutation of flatten's leaf list
+   (the treespec's dict nodes may list the keys in another order than the tree's own flatten visits
+   them, see C07_partition_example; without such a difference the two sequences coincide). Every
+   treespec of the configuration, every well-formed tree. *)
+Theorem C07_flatten_up_to_partitions :
+  forall c s o ls sp subtrees,
+    c_pred c = None -> c_ns c = ss_ns s ->
+    good (stree_of s) = true -> spec_ok c (stree_of s) = true ->
+    wf_obj o = true -> flatten c o = Ok (ls, sp) ->
+    ss_flatten_up_to (c_reg c) s o = Ok subtrees ->
+    exists lss, Forall2 (fun x lx => exists spx, flatten c x = Ok (lx, spx)) subtrees lss /\
+                Permutation (concat lss) ls.
+Proof. exact flatten_up_to_partitions. Qed.
+Print Assumptions C07_flatten_up_to_partitions.
+
+(* PER TREESPEC LEAF, IN THE TREESPEC'S LEAF ORDER, THE SUBTREE AT THAT LEAF'S PATH: the i-th returned
+   subtree is what the i-th path of the treespec (PyTreeSpec.paths, C04) resolves to in the tree. *)
+Theorem C07_flatten_up_to_by_paths :
+  forall regs s o subtrees,
+    good (stree_of s) = true -> entries_wf (stree_of s) = true -> entries_ok o = true ->
+    ss_flatten_up_to regs s o = Ok subtrees ->
+    Forall2 (fun p x => get_path o p = Some x) (st_paths (stree_of s)) subtrees.
+Proof. exact flatten_up_to_by_paths. Qed.
+Print Assumptions C07_flatten_up_to_by_paths.
+
+(* its side conditions hold for every treespec obtained by flatten *)
+Theorem C07_flattened_up_to_by_paths :
+  forall c o1 ls1 sp1 s1 o subtrees,
+    wf_obj o1 = true -> flatten c o1 = Ok (ls1, sp1) -> sspec_of sp1 = Some s1 -> entries_ok o = true ->
+    ss_flatten_up_to (c_reg c) s1 o = Ok subtrees ->
+    Forall2 (fun p x => get_path o p = Some x) (st_paths (stree_of s1)) subtrees.
+Proof. exact flattened_up_to_by_paths. Qed.
+Print Assumptions C07_flattened_up_to_by_paths.
+
+(* non-vacuity of the partition theorem, and why it is a permutation: the treespec is an OrderedDict
+   (keys b, a), the tree a dict (visited a, b) *)
+Example C07_partition_example :
+  let c := {| c_nil := false; c_ns := 0; c_pred := None; c_reg := []; c_ins := []; c_limit := 1000 |} in
+  let pre := Node (HODict [KStr [98]; KStr [97]]) [Leaf 1; Leaf 3] in
+  let full := Node (HDict [KStr [97]; KStr [98]]) [Leaf 3; Node HTuple [Leaf 1; Leaf 2]] in
+  exists l1 a sa,
+    flatten c pre = Ok (l1, a) /\ sspec_of a = Some sa /\
+    good (stree_of sa) = true /\ spec_ok c (stree_of sa) = true /\ entries_wf (stree_of sa) = true /\
+    ss_flatten_up_to [] sa full = Ok [Node HTuple [Leaf 1; Leaf 2]; Leaf 3] /\
+    option_map fst (match flatten c full with Ok r => Some r | Err _ => None end) = Some [Leaf 3; Leaf 1; Leaf 2] /\
+    st_paths (stree_of sa) = [[KStr [98]]; [KStr [97]]].
+Proof. vm_compute. do 3 eexists. repeat split. Qed.
 
 Example C07_example :
   let c := {| c_nil := false; c_ns := 0; c_pred := None; c_reg := []; c_ins := []; c_limit := 1000 |} in
